@@ -21,6 +21,8 @@ fam({'C01': ('fifo', 'fifo'), 'C02': ('txn', 'txn'), 'C03': ('retention', 'reten
      'C04': ('reclaim', 'reclaim'), 'C05': ('wake', 'wake'), 'C12': ('close', 'close')},
     driver='buffer', tv='BufferTV', mc_quick=[('BufferMC', 'BufferMC_quick')], mc_thorough=[('BufferMC', 'BufferMC')],
     n=(70, 150, 1500, 4000))
+F['C12']['legs'] = [dict(driver='channel', profile='close', prop='close', tv='ChannelTV', n=(60, 120, 1000, 3000),
+                       mc_quick=[('ChannelMC', 'ChannelMC')], mc_thorough=[('ChannelMC', 'ChannelMC_big')])]
 fam({'C13': ('main', 'all')},
     driver='channel', tv='ChannelTV', mc_quick=[('ChannelMC', 'ChannelMC')], mc_thorough=[('ChannelMC', 'ChannelMC_big')],
     n=(100, 300, 2000, 6000))
@@ -75,14 +77,20 @@ def run(ctx):
     if 'custom' in f:
         return f['custom'](ctx)
     build_harness(ctx)
-    for spec, cfg in (f['mc_quick'] if ctx.quick else f['mc_thorough']):
+    mcs = list(f['mc_quick'] if ctx.quick else f['mc_thorough'])
+    for leg in f.get('legs', []):
+        mcs += list(leg.get('mc_quick' if ctx.quick else 'mc_thorough', []))
+    for spec, cfg in mcs:
         run_mc(ctx, spec, cfg, workers=8 if ctx.quick else 16, timeout=300 if ctx.quick else 3000)
-    qc, qf, tc, tf = f['n']
-    nc, nf = (qc, qf) if ctx.quick else (tc, tf)
-    if nc:
-        conformance(ctx, f, 'c', nc, ctx.seed, 'modec')
-    if nf:
-        conformance(ctx, f, 'f', nf, ctx.seed + 1000, 'modef')
+    legs = [f] + [dict(f, **leg) for leg in f.get('legs', [])]
+    for i, leg in enumerate(legs):
+        qc, qf, tc, tf = leg['n']
+        nc, nf = (qc, qf) if ctx.quick else (tc, tf)
+        tag = '' if i == 0 else f'_{leg["driver"]}'
+        if nc:
+            conformance(ctx, leg, 'c', nc, ctx.seed, 'modec' + tag)
+        if nf:
+            conformance(ctx, leg, 'f', nf, ctx.seed + 1000, 'modef' + tag)
     if 'extra' in f:
         f['extra'](ctx, f)
 
@@ -94,6 +102,9 @@ def replay(ctx, path):
     build_harness(ctx)
     ei = json.load(open(f'{path}/exec.json'))
     mode = ei.get('mode', 'c')
+    for leg in f.get('legs', []):
+        if leg.get('driver') == ei.get('driver'):
+            f = dict(f, **leg)
     out, st = run_harness(ctx, f['driver'], 'replay', mode=mode, profile='replay', replay=f'{path}/exec.json')
     rej, _ = validate(ctx, f['tv'], f'{out}/trace.ndjson', st, ei.get('prop', f['prop']), 'tv_replay', parallel=1)
     handle_rejections(ctx, f, rej, st, mode, 'replay')
